@@ -60,15 +60,32 @@ def zsum(vals):
     return s
 
 
+class _Refused(Exception):
+    pass
+
+
 def harness(env, case):
+    try:
+        _harness(env, case)
+    except _Refused:
+        return
+
+
+def _harness(env, case):
     from formulae import design_matrices
 
     kind, n, arg = case
     sym = env.mode == "sym"
 
     def build(formula, df, **kw):
-        with env.running():
-            return design_matrices(formula, df, **kw)
+        try:
+            with env.running():
+                return design_matrices(formula, df, **kw)
+        except (symx.PathEnd, symx.Inconclusive):
+            raise
+        except Exception as e:
+            env.fail("a valid transform call is refused", {"formula": formula, "exc": type(e).__name__, "site": core.repo_site(e), "msg": str(e)[:160]})
+            raise _Refused()
 
     def transform_of(dm, name):
         comp = dm.common.terms[name].components[0]
